@@ -22,8 +22,8 @@ SPEC = {
 
 
 def weights_matrix(A, kind):
-    if kind in ("bool", "float", "complex", "complex64"):
-        a = A.astype(np.int32) if kind == "bool" else A
+    if kind in ("bool", "float", "int", "complex", "complex64"):
+        a = A.astype(np.int32) if kind == "bool" else (A.astype(np.float64) if kind == "int" else A)
         return np.real(np.conj(a)[:, None] * a[None, :])          # w_ij = Re(A_j conj A_i)
     if kind in ("vector", "cvector"):
         return np.real(np.einsum("ia,ja->ij", np.conj(A), A))
@@ -42,6 +42,10 @@ def make_condition(rng, N, d, kind, types=None):
         return c
     if kind == "float":
         return rng.normal(size=N) + rng.uniform(-2, 2)
+    if kind == "int":            # integer-valued scalar stored as integers (charges, spins, coordination numbers)
+        c = rng.integers(-3, 7, size=N).astype(rng.choice([np.int64, np.int32]))
+        c[0], c[1] = 2, -1
+        return c
     if kind == "complex":
         return (rng.normal(size=N) + 1j * rng.normal(size=N)).astype(np.complex128)
     if kind == "complex64":      # single-precision complex field: values exactly representable, so only the convention matters
@@ -56,9 +60,23 @@ def make_condition(rng, N, d, kind, types=None):
     return T
 
 
+def represent(A, h):
+    """the caller's condition array in another in-memory representation: fresh copy, read-only, or a strided view"""
+    r = h % 4
+    if r == 1:
+        B = A.copy()
+        B.setflags(write=False)
+        return B
+    if r == 2:
+        big = np.zeros((2 * A.shape[0] + 1,) + A.shape[1:], dtype=A.dtype)
+        big[1::2] = A
+        return big[1::2]
+    return A.copy()
+
+
 def case_gr(ctx, rng):
     from PyMatterSim.static.gr import conditional_gr, gr
-    kind = str(rng.choice(["bool", "bool", "float", "float", "complex", "complex64", "vector", "cvector", "symtensor", "tensor"]))
+    kind = str(rng.choice(["bool", "bool", "float", "float", "complex", "complex64", "vector", "cvector", "symtensor", "tensor", "int"]))
     K = int(rng.integers(1, 4))
     snaps, inf, cell = gc.static_system(rng, K=K, frames=1, nmin=max(3, K), nmax=40 if kind.endswith("tensor") else 60)
     s = snaps.snapshots[0]
@@ -74,7 +92,7 @@ def case_gr(ctx, rng):
     info = lambda: {"kind": kind, "d": d, "N": N, "cell": inf["cell"], "ppp": ppp, "rdelta": w, "H": cell["H"],  # noqa: E731
                     "positions": s.positions if N <= 25 else "omitted", "condition": A if N <= 25 else "omitted"}
     key = f"conditional_gr/{kind}"
-    Acall = A.copy()
+    Acall = represent(A, N + int(10 * w * 1000))
     ok, res = ctx.call(key, conditional_gr, s, Acall, ctype, ppp, w, data=info)
     if ok and rng.random() < 0.35:
         # history: the caller keeps its arrays and calls again -- the second answer must be the same table
@@ -97,7 +115,7 @@ def case_gr(ctx, rng):
              sample={"kind": kind, "N": N, "d": d, "cell": inf["cell"], "ppp": ppp, "rdelta": w})
     if not ok:
         return
-    cols = ["r", "gr", "gA"] + (["gA_norm"] if kind == "float" else [])
+    cols = ["r", "gr", "gA"] + (["gA_norm"] if kind in ("float", "int") else [])
     if not ctx.check("gr_column", list(res.columns) == cols and len(res) == nb, key + "/layout",
                      lambda: f"columns {list(res.columns)} rows {len(res)} expected {cols} rows {nb}", info):
         return
@@ -117,8 +135,9 @@ def case_gr(ctx, rng):
             ctx.violation(f"{key}/{col}", f"{col} bin {k}: got {obs[k]!r}, reference [{(a * norm)[k]!r}, {(b * norm)[k]!r}]",
                           info(), monitor="gA" if col == "gA" else "gr_column")
             return
-    if kind == "float":
-        m1, m2 = A.mean() ** 2, (A ** 2).mean()
+    if kind in ("float", "int"):
+        Af = A.astype(np.float64)
+        m1, m2 = Af.mean() ** 2, (Af ** 2).mean()
         exp = (res["gA"].values - m1) / (m2 - m1)
         ctx.close("gA_norm", res["gA_norm"].values, exp, key + "/gA_norm", rtol=1e-9, atol=1e-12, what="gA_norm", data=info, n=1)
     # ---- reductions on the real code
@@ -152,7 +171,7 @@ def case_gr(ctx, rng):
 
 def case_sq(ctx, rng):
     from PyMatterSim.static.sq import conditional_sq, sq
-    kind = str(rng.choice(["bool", "bool", "float", "complex", "vector"]))
+    kind = str(rng.choice(["bool", "bool", "float", "complex", "vector", "int"]))
     K = int(rng.integers(1, 4))
     d = int(rng.choice([2, 3]))
     snaps, inf, cell = gc.static_system(rng, d=d, K=K, cellkind="ortho", frames=1, nmin=max(3, K), nmax=60)
@@ -173,7 +192,9 @@ def case_sq(ctx, rng):
     key = f"conditional_sq/{kind}"
     share = bool(rng.random() < 0.4)
     qarr = nv.astype(np.float64) if share else nv.copy()      # caller-owned wave-vector array, float or int
-    Acall = A.copy()
+    Acall = represent(A, N + len(nv))
+    if (N + len(nv)) % 5 == 0:
+        qarr.setflags(write=False)
     ok, out = ctx.call(key, conditional_sq, s, qarr, Acall, data=info)
     if ok and share:
         # history: the same caller-owned arrays are handed in again (a loop over conditions / frames reuses one qvector array)
